@@ -138,3 +138,74 @@ func LineCol(src string, idx int) (line, col int) {
 	col = idx - (strings.LastIndex(src[:idx], "\n") + 1)
 	return
 }
+
+var attrIface = reflect.TypeOf((*parser.Attribute)(nil)).Elem()
+
+// WalkAttrs visits every attribute (of any kind) in the tree.
+func WalkAttrs(v any, f func(a parser.Attribute)) {
+	var rec func(rv reflect.Value)
+	rec = func(rv reflect.Value) {
+		if !rv.IsValid() {
+			return
+		}
+		switch rv.Kind() {
+		case reflect.Interface, reflect.Ptr:
+			if rv.IsNil() {
+				return
+			}
+			if rv.Kind() == reflect.Interface && rv.Type() == attrIface {
+				f(rv.Interface().(parser.Attribute))
+			}
+			rec(rv.Elem())
+		case reflect.Slice, reflect.Array:
+			for i := 0; i < rv.Len(); i++ {
+				rec(rv.Index(i))
+			}
+		case reflect.Struct:
+			if rv.Type() == exprType {
+				return
+			}
+			for i := 0; i < rv.NumField(); i++ {
+				if rv.Type().Field(i).IsExported() {
+					rec(rv.Field(i))
+				}
+			}
+		}
+	}
+	rec(reflect.ValueOf(v))
+}
+
+var nodeSliceType = reflect.TypeOf([]parser.Node(nil))
+
+// WalkNodeLists visits every []parser.Node in the tree with the name of the struct type that owns it.
+func WalkNodeLists(v any, f func(owner string, nodes []parser.Node)) {
+	var rec func(owner string, rv reflect.Value)
+	rec = func(owner string, rv reflect.Value) {
+		if !rv.IsValid() {
+			return
+		}
+		switch rv.Kind() {
+		case reflect.Interface, reflect.Ptr:
+			if !rv.IsNil() {
+				rec(owner, rv.Elem())
+			}
+		case reflect.Slice, reflect.Array:
+			if rv.Type() == nodeSliceType {
+				f(owner, rv.Interface().([]parser.Node))
+			}
+			for i := 0; i < rv.Len(); i++ {
+				rec(owner, rv.Index(i))
+			}
+		case reflect.Struct:
+			if rv.Type() == exprType {
+				return
+			}
+			for i := 0; i < rv.NumField(); i++ {
+				if rv.Type().Field(i).IsExported() {
+					rec(rv.Type().Name(), rv.Field(i))
+				}
+			}
+		}
+	}
+	rec("", reflect.ValueOf(v))
+}
